@@ -193,6 +193,7 @@ fn main() {
         props_hyrax::run(&mut ctx, &prop);
         props_lincode::run(&mut ctx, &prop);
         props_mlpc::run(&mut ctx, &prop);
+        props_c15::run_prop(&mut ctx, &prop);
     }
     ctx.flush_model(&format!("{}-final", prop));
     let json = ctx.rep.to_json(&format!("{}/replays", workdir));
